@@ -64,6 +64,8 @@ DJANGO = {
     }
 }
 
+# no failing transition may be dropped: an open known finding must not be able to crowd out a new one
+FAIL_LIMIT = 1_000_000
 DOC = "<html><head></head><body>%s</body></html>"
 URL_RE = re.compile(r"^/components/cache/(?P<hash>[^/.]+)(?:\.(?P<input>[^/.]+))?\.(?P<kind>js|css)$")
 CTYPE = {"js": "text/javascript", "css": "text/css"}
@@ -371,12 +373,11 @@ def hist_canon(w: World):
 def _hist_bfs_task(cache_cfg):
     _VALIDATED.clear()
     ops = hist_ops()
-    stats = {"emitted": 0, "raised": 0}
 
     def make():
         return World(cache_cfg)
 
-    r = seq.bfs(make, ops, hist_step, hist_canon, max_states=100000)
+    r = seq.bfs(make, ops, hist_step, hist_canon, max_states=100000, fail_limit=FAIL_LIMIT)
     nontriv = sum(1 for k in r.seen if k[0] or k[1])  # states with at least one script in the media cache
     _cleanup()
     return {"cfg": cache_cfg, "states": r.states, "transitions": r.transitions, "failures": r.failures, "fixpoint": r.fixpoint,
@@ -388,7 +389,7 @@ def _hist_unmerged_task(arg):
     _VALIDATED.clear()
     ops = hist_ops()
     n_seq, n_tr, failures, outcomes, canon_states = seq.all_sequences(
-        lambda: World(cache_cfg), ops, hist_step, depth, first_ops=[first], canon=hist_canon
+        lambda: World(cache_cfg), ops, hist_step, depth, first_ops=[first], canon=hist_canon, fail_limit=FAIL_LIMIT
     )
     _cleanup()
     return cache_cfg, n_seq, n_tr, failures, canon_states, sorted(outcomes)
@@ -553,7 +554,7 @@ def judge_request(method, hk, kk, ik, populated, status, body, ctype):
 
 
 def _requests_task(_):
-    e = env()
+    env()
     _cleanup()
     hashes, kinds, inputs = request_space()
     failures = []
@@ -687,7 +688,7 @@ def replay(ctx, case):
             print(f)
         return not hit
     if part == "requests":
-        e = env()
+        env()
         _cleanup()
         hashes, kinds, inputs = request_space()
         media_cache().clear()
